@@ -1907,6 +1907,178 @@ fn emit(ctx: &mut Ctx, op: &str) {
     ctx.case(&format!("{}{} vexp={} conf={}", op, if subsec { " subsec=1" } else { "" }, vexp, if conf { 1 } else { 0 }));
 }
 
+//------------ content codecs tied to the Lean models (Model/Roa.lean) ---------------------------------------
+
+fn show_roa_iter(a: &rpki::repository::roa::RoaIpAddresses) -> String {
+    match catch_unwind(AssertUnwindSafe(|| a.iter().map(|x| format!("{}/{}{}", x.prefix().addr().to_bits(), x.prefix().addr_len(),
+        match x.max_length() { Some(m) => format!("-{}", m), None => String::new() })).collect::<Vec<_>>())) {
+        Ok(v) => if v.is_empty() { "-".into() } else { v.join(",") },
+        Err(_) => "panic".into(),
+    }
+}
+
+fn show_prov_iter(c: &AsProviderAttestation) -> String {
+    match catch_unwind(AssertUnwindSafe(|| c.provider_as_set().iter().map(|a| a.into_u32().to_string()).collect::<Vec<_>>())) {
+        Ok(v) => if v.is_empty() { "-".into() } else { v.join(",") },
+        Err(_) => "panic".into(),
+    }
+}
+
+/// roax <asid> <v4> <v6>   => <hex of RouteOriginAttestation::encode_ref> <v4 iter> <v6 iter>
+/// road <hex of eContent>  => ok <asid> <v4 iter> <v6 iter> | err        (Roa::decode over the harness's CMS envelope)
+/// aspax <customer> <providers> => <hex of AsProviderAttestation::encode_ref> <iter> <len> | dup
+/// aspad <hex of eContent> => ok <customer> <iter> <len> | err
+pub fn exec_codec(toks: &[&str]) -> String {
+    let w = world();
+    let r: R<String> = (|| match toks {
+        ["roax", asid, v4, v6] => {
+            let (asid, v4, v6) = (p_num::<u32>(asid)?, p_roaaddrs(v4, true)?, p_roaaddrs(v6, false)?);
+            let built = match stage("build", || build_roa(asid, &v4, &v6, 0).to_attestation()) { Ok(b) => b, Err(p) => return Ok(p) };
+            let content = match stage("encode", || built.encode_ref().to_captured(Mode::Der).into_bytes()) { Ok(b) => b, Err(p) => return Ok(p) };
+            Ok(format!("{} {} {}", hex(&content), show_roa_iter(built.v4_addrs()), show_roa_iter(built.v6_addrs())))
+        }
+        ["road", h] => {
+            let content = p_hex(h)?;
+            let obj = Bytes::from(wrap_cms(w, pki::CT_ROA, &content));
+            match stage("decode", || Roa::decode(obj.clone(), true)) {
+                Err(p) => Ok(p),
+                Ok(Err(_)) => Ok("err".into()),
+                Ok(Ok(r)) => Ok(format!("ok {} {} {}", r.content().as_id().into_u32(), show_roa_iter(r.content().v4_addrs()), show_roa_iter(r.content().v6_addrs()))),
+            }
+        }
+        ["aspax", cust, provs] => {
+            let (cust, provs) = (p_num::<u32>(cust)?, p_providers(provs)?);
+            let signer = PoolSigner(w);
+            let built = stage("build", || build_aspa(cust, &provs, false).map(|b| b.finalize(std_sob(), &signer, &w.pool.keys[0].id)));
+            let built = match built { Err(p) => return Ok(p), Ok(Err(())) => return Ok("dup".into()), Ok(Ok(Err(_))) => return Err(Refused), Ok(Ok(Ok(a))) => a };
+            let content = match stage("encode", || built.content().encode_ref().to_captured(Mode::Der).into_bytes()) { Ok(b) => b, Err(p) => return Ok(p) };
+            Ok(format!("{} {} {}", hex(&content), show_prov_iter(built.content()), built.content().provider_as_set().len()))
+        }
+        ["aspad", h] => {
+            let content = p_hex(h)?;
+            let obj = Bytes::from(wrap_cms(w, pki::CT_ASPA, &content));
+            match stage("decode", || Aspa::decode(obj.clone(), true)) {
+                Err(p) => Ok(p),
+                Ok(Err(_)) => Ok("err".into()),
+                Ok(Ok(a)) => Ok(format!("ok {} {} {}", a.content().customer_as().into_u32(), show_prov_iter(a.content()), a.content().provider_as_set().len())),
+            }
+        }
+        _ => Err(Bad),
+    })();
+    match r { Ok(s) => s, Err(Bad) => "bad-op".into(), Err(Refused) => "build-err".into() }
+}
+
+/// generator for the codec ops: builder inputs (conforming and not) and eContent from the independent encoder
+/// with the deviations a hostile or sloppy producer makes
+pub fn generate_codec(ctx: &mut Ctx) {
+    let mut rng = Rng::new(ctx.seed ^ 0xC05C);
+    let n = if ctx.tier_thorough { 6000 } else { 700 };
+    let item = |rng: &mut Rng, v4: bool, strict: bool| -> (u128, u8, Option<u8>) {
+        let w: u8 = if v4 { 32 } else { 128 };
+        let len = match rng.below(8) { 0 => 0, 1 => w, 2 => 8, 3 => w - 1, 4 => 1, 5 => 7, 6 => 9, _ => rng.range(0, w as u64) as u8 };
+        let len = if !strict && rng.chance(1, 6) { if v4 { rng.range(33, 128) as u8 } else { 128 } } else { len };
+        let bits: u128 = if v4 { rng.next() as u32 as u128 } else { rng.u128() };
+        let bits = match rng.below(5) { 0 => 0, 1 => if v4 { u32::MAX as u128 } else { u128::MAX }, _ => bits };
+        let ml = match rng.below(5) {
+            0 | 1 => None,
+            2 => Some(len.min(w)),
+            3 => Some(w),
+            _ => if strict { Some(rng.range(len.min(w) as u64, w as u64) as u8) } else { Some(rng.below(256) as u8) },
+        };
+        (bits, len, ml)
+    };
+    let show = |v: &[(u128, u8, Option<u8>)]| if v.is_empty() { "-".to_string() } else {
+        v.iter().map(|(b, l, m)| format!("{}/{}{}", b, l, m.map(|m| format!("-{}", m)).unwrap_or_default())).collect::<Vec<_>>().join(",") };
+    for _ in 0..n {
+        let strict = !rng.chance(1, 5);
+        let asid = match rng.below(6) { 0 => 0, 1 => u32::MAX, 2 => 127, 3 => 128, 4 => 0x8000_0000, _ => rng.next() as u32 };
+        let k4 = match rng.below(6) { 0 => 0, 1 => rng.range(10, 60), _ => rng.range(1, 4) } as usize;
+        let k6 = match rng.below(6) { 0 | 1 => 0, 2 => rng.range(10, 40), _ => rng.range(1, 3) } as usize;
+        let v4: Vec<_> = (0..k4).map(|_| item(&mut rng, true, strict)).collect();
+        let v6: Vec<_> = (0..k6).map(|_| item(&mut rng, false, strict)).collect();
+        ctx.case(&format!("roax {} {} {}", asid, show(&v4), show(&v6)));
+        // the same through the independent encoder; half of the cases carry exactly one kind of deviation
+        let dv = if rng.chance(1, 2) { rng.below(12) } else { 99 };
+        let enc_item = |width: u32, it: &(u128, u8, Option<u8>), rng: &mut Rng| -> Vec<u8> {
+            let (bits, len, ml) = *it;
+            let len = (len as u32).min(width);
+            let be: Vec<u8> = if width == 32 { (bits as u32).to_be_bytes().to_vec() } else { bits.to_be_bytes().to_vec() };
+            let nbytes = ((len + 7) / 8) as usize;
+            let unused = (nbytes as u32 * 8 - len) as u8;
+            let mut oct = be[..nbytes].to_vec();
+            // host bits in the last octet: cleared unless we want the DER violation
+            if unused > 0 && !(dv == 0 && rng.chance(1, 3)) { let l = oct.len(); oct[l - 1] &= 0xffu8 << unused; }
+            let mut parts = vec![der::bits(if dv == 1 && rng.chance(1, 3) { rng.below(12) as u8 } else { unused }, &oct)];
+            if let Some(m) = ml { parts.push(if dv == 2 && rng.chance(1, 2) { match rng.below(3) { 0 => der::tlv(2, &[0, m]), 1 => der::tlv(2, &[]), _ => der::tlv(2, &[0, 0, m]) } } else { der::uint_u64(m as u64) }); }
+            if dv == 3 && rng.chance(1, 3) { parts.push(der::null()); }
+            der::seq(&parts)
+        };
+        let fam = |code: &[u8], items: Vec<Vec<u8>>| der::seq(&[der::octets(code), der::seq(&items)]);
+        let i4: Vec<Vec<u8>> = v4.iter().map(|i| enc_item(32, i, &mut rng)).collect();
+        let i6: Vec<Vec<u8>> = v6.iter().map(|i| enc_item(128, i, &mut rng)).collect();
+        let mut fams = Vec::new();
+        let order = rng.below(10);
+        if order == 0 { if !i6.is_empty() { fams.push(fam(&[0, 2], i6.clone())); } if !i4.is_empty() { fams.push(fam(&[0, 1], i4.clone())); } }
+        else { if !i4.is_empty() || order == 1 { fams.push(fam(&[0, 1], i4.clone())); } if !i6.is_empty() || order == 2 { fams.push(fam(&[0, 2], i6.clone())); } }
+        if dv == 4 {
+            match rng.below(5) {
+                0 => if let Some(f) = fams.first().cloned() { fams.push(f) },
+                1 => fams.push(fam(&[0, 3], i4.clone())),
+                2 => fams.push(fam(&[0, 1, 1], i4.clone())),
+                3 => fams.push(fam(&[1], vec![])),
+                _ => fams.push(der::seq(&[der::octets(&[0, 1])])),
+            }
+        }
+        let asn = if dv == 5 { match rng.below(5) { 0 => der::tlv(2, &[0, 0, 0, 0, 1]), 1 => der::tlv(2, &[0x80]), 2 => der::tlv(2, &[0, 0x7f]), 3 => der::tlv(2, &[1, 0, 0, 0, 0]),
+            _ => der::tlv(2, &[0, 0xff, 0xff, 0xff, 0xff]) } } else { der::uint_u64(asid as u64) };
+        let mut parts = Vec::new();
+        if dv == 6 { match rng.below(4) { 0 => parts.push(der::ctx(0, true, &der::uint_u64(0))), 1 => parts.push(der::ctx(0, true, &der::uint_u64(1))),
+            2 => parts.push(der::ctx(0, false, &[0])), _ => parts.push(der::ctx(0, true, &der::cat(&[der::uint_u64(0), der::null()]))) } }
+        parts.push(asn);
+        parts.push(der::seq(&fams));
+        if dv == 7 { parts.push(der::null()); }
+        let mut d = der::seq(&parts);
+        match dv {
+            8 | 9 => { let i = rng.below(d.len() as u64) as usize; d[i] ^= 1 << rng.below(8); }
+            10 => { d.push(0); }
+            11 => { let i = rng.below(d.len() as u64) as usize; d.truncate(i); }
+            _ => {}
+        }
+        ctx.case(&format!("road {}", hex(&d)));
+        // ASPA
+        let cust = match rng.below(5) { 0 => 0, 1 => u32::MAX, _ => rng.range(1, 70000) as u32 };
+        let kp = match rng.below(8) { 0 => 0, 1 => rng.range(50, 300), _ => rng.range(1, 6) } as usize;
+        let mut provs: Vec<u32> = (0..kp).map(|_| match rng.below(6) { 0 => 0, 1 => u32::MAX, 2 => cust, 3 => rng.below(300) as u32, _ => rng.next() as u32 }).collect();
+        if strict { provs.retain(|p| *p != cust); provs.sort(); provs.dedup(); }
+        ctx.case(&format!("aspax {} {}", cust, if provs.is_empty() { "-".into() } else { provs.iter().map(|p| p.to_string()).collect::<Vec<_>>().join(",") }));
+        let mut pv = provs.clone();
+        let dv = if rng.chance(1, 2) { rng.below(9) } else { 99 };
+        if dv != 0 { pv.retain(|p| *p != cust); pv.sort(); pv.dedup(); } else if rng.bool() { pv.sort(); }
+        if pv.is_empty() && dv != 1 { pv.push(if cust == 5 { 6 } else { 5 }); }
+        let pitems: Vec<Vec<u8>> = pv.iter().map(|p| if dv == 2 && rng.chance(1, 4) { match rng.below(2) { 0 => der::tlv(2, &[0, 0, *p as u8]), _ => der::octets(&[1]) } } else { der::uint_u64(*p as u64) }).collect();
+        let mut parts = Vec::new();
+        if dv == 3 { match rng.below(4) { 0 => {}, 1 => parts.push(der::ctx(0, true, &der::uint_u64(0))), 2 => parts.push(der::ctx(0, true, &der::uint_u64(2))),
+            _ => parts.push(der::ctx(0, true, &der::cat(&[der::uint_u64(1), der::null()]))) } } else { parts.push(der::ctx(0, true, &der::uint_u64(1))) }
+        parts.push(der::uint_u64(cust as u64));
+        parts.push(der::seq(&pitems));
+        if dv == 4 { parts.push(der::null()); }
+        let mut d = der::seq(&parts);
+        match dv {
+            5 | 6 => { let i = rng.below(d.len() as u64) as usize; d[i] ^= 1 << rng.below(8); }
+            7 => { d.push(0); }
+            8 => { let i = rng.below(d.len() as u64) as usize; d.truncate(i); }
+            _ => {}
+        }
+        ctx.case(&format!("aspad {}", hex(&d)));
+    }
+    // the provider count limit
+    for k in [16379u32, 16380, 16381] {
+        let items: Vec<Vec<u8>> = (1..=k).map(|p| der::uint_u64(p as u64)).collect();
+        let d = der::seq(&[der::ctx(0, true, &der::uint_u64(1)), der::uint_u64(70000), der::seq(&items)]);
+        ctx.case(&format!("aspad {}", hex(&d)));
+    }
+}
+
 pub fn generate(ctx: &mut Ctx) {
     let mut rng = Rng::new(ctx.seed ^ 0xC05);
     let k = if ctx.tier_thorough { 10 } else { 1 };
